@@ -541,7 +541,9 @@ ReadBatchGoto:
 	}
 
 	idx := 0
-	for idx <= len(buf)-rootHashRecordSize() {
+	// Scan every position at which a record could still fit. The smallest record is a length and a checksum; records
+	// shorter than a root hash record (small chunk records) count as the record following a root hash record too.
+	for idx <= len(buf)-(journalRecLenSz+journalRecChecksumSz) {
 		sz := readUint32(buf[idx : idx+uint32Size])
 		if sz > 0 && sz <= journalWriterBuffSize {
 			// in the right range.
